@@ -182,7 +182,7 @@ theorem step_cases (K : Consts) (ts : TypeSystem) (o : Opts) (lf : Nat) (s : St)
 
 /-! ### successors are monotone in the visited map and independent of assigned ids -/
 
-theorem seenId_nil (x : Option Int) : seenId [] x = false := by
+theorem seenId_nil (x : Option Int) (a : Nat) : seenId [] x a = false := by
   cases x <;> rfl
 
 /-- "at most as many pushes as against an empty visited map" (errors coincide, only `ok` matters) -/
